@@ -59,6 +59,9 @@ type ExecOpts struct {
 	// NoGetterCalls: do not call any machine getter during setup (C12 wants the
 	// very first StateNames()/Schema() calls to happen concurrently).
 	NoGetterCalls bool
+	// AmSchema, when set, is handed to am.New instead of a fresh c.Schema.Am() (C11: the very same schema value
+	// - the usual package-level var - is used for many machines; the library must not write to it).
+	AmSchema am.Schema
 }
 
 // LongTimeout is used as HandlerTimeout for all fault-free checks, so that a
@@ -80,7 +83,11 @@ func Exec(c Case, o ExecOpts) (*Run, error) {
 	opts.Tracers = append([]am.Tracer{tr}, o.ExtraTracers...)
 	opts.Id = fmt.Sprintf("m%d", machSeq.Add(1))
 	opts.DontLogStackTrace = true
-	m := am.New(ctx, c.Schema.Am(), opts)
+	schema := o.AmSchema
+	if schema == nil {
+		schema = c.Schema.Am()
+	}
+	m := am.New(ctx, schema, opts)
 	if !c.Unverified {
 		if err := m.VerifyStates(c.Schema.Names()); err != nil {
 			cancel()
